@@ -84,6 +84,8 @@ def ev(S, F, x, asg, tabs=None):
         raise Unknown(sym.fmt(n(x)))
     if k == "bytes":
         return ("bytes", x[1])
+    if k in ("lv", "mutated", "local") and asg.get("symbolic"):
+        return ("raw", x)  # the content of a local the evaluation does not track (e.g. a buffer filled by a callee): opaque, never a number
     if k == "table":
         return ("tab", x[1])
     if k == "index" and x[1][0] == "table":
@@ -112,8 +114,12 @@ def ev(S, F, x, asg, tabs=None):
         for suf in ("WithOverflow", "Unchecked"):
             if op.endswith(suf):
                 op = op[: -len(suf)]
+        if op in ("Lt", "Le", "Gt", "Ge") and not (isinstance(a, int) and isinstance(b, int)):
+            raise Unknown("ordering of values that are not numbers: %s" % sym.fmt(n(x))[:80])
         if op in ("Eq", "Ne", "Lt", "Le", "Gt", "Ge"):
             return int({"Eq": a == b, "Ne": a != b, "Lt": a < b, "Le": a <= b, "Gt": a > b, "Ge": a >= b}[op])
+        if not (isinstance(a, int) and isinstance(b, int)):
+            raise Unknown("arithmetic on a value that is not a number: %s" % sym.fmt(n(x))[:80])
         if op in ("BitOr", "BitAnd", "BitXor"):
             return {"BitOr": a | b, "BitAnd": a & b, "BitXor": a ^ b}[op]
         if op in ("Div", "Rem"):
@@ -243,6 +249,20 @@ def ev(S, F, x, asg, tabs=None):
         if asg.get("symbolic"):
             vals = [ev(S, F, a, asg, tabs) for a in args]
             short = path.rsplit("::", 1)[-1]
+            if path.endswith("bool>::then_some") and len(vals) == 2 and isinstance(vals[0], int):
+                return ("Some", vals[1]) if vals[0] else ("None",)
+            if path.endswith("bool>::then") and len(vals) == 2 and isinstance(vals[0], int):
+                if not vals[0]:
+                    return ("None",)
+                f = vals[1]
+                if isinstance(f, tuple) and f and f[0] == "closure":
+                    cb_ = F.fn(f[1])
+                    if cb_ is not None and cb_.mir is not None:
+                        S3 = sym.Sym(cb_)
+                        sub3 = dict(asg, params={1: f[2]}, _depth=asg.get("_depth", 0) + 1)
+                        sub3.pop("subst", None)
+                        return ("Some", run(S3, F, S3.paths(), sub3, tabs))
+                raise Unknown("bool::then with %r" % (f,))
             # Option / Result combinators on structured values
             if path.startswith(("core::option::Option", "core::result::Result")) and vals and isinstance(vals[0], tuple):
                 v0 = vals[0]
